@@ -11,6 +11,8 @@
 (*                  Pilot._update on a batch; the task manager's callback  *)
 (*                  is registered on the pilots (add_pilots), so a pilot   *)
 (*                  entering a final state runs PilotFinal's effect        *)
+(*   RemovePilots(p) TaskManager.remove_pilots: the pilot leaves the task  *)
+(*                  manager, the tasks already bound to it stay bound      *)
 (* Code bookkeeping: tstate (Task._state), bound (Task._pilot), detail     *)
 (* (pilot named in Task.exception_detail), pstate (Pilot._state).          *)
 (* Ghosts: cbLog / pcbLog (states handed to TASK_STATE / PILOT_STATE       *)
@@ -22,6 +24,8 @@
 (*   DevPilotCbCanceled D9  ... and turns CANCELED tasks into FAILED       *)
 (*   DevPBatchFirst     D19 only the first pilot entry of a batch is used  *)
 (*   DevPFinalRaise         DONE pilot + other final raises                *)
+(*   DevRemovedUnwatched    (no known defect; seeded regression) a removed *)
+(*                          pilot is no longer watched: its end fails nobody *)
 (* The last two leave the invariants of C14 intact (they break only        *)
 (* PBatchComplete, which is not part of any listed property).              *)
 (***************************************************************************)
@@ -35,12 +39,14 @@ CONSTANTS Tasks, UnknownTasks,      \* known / unknown task ids
           EarlyBind,                \* TRUE: tasks may be born bound (td.pilot)
           DirectFinal,              \* TRUE: PilotFinal may be called directly
           DevFinalRaise, DevPilotCbAll, DevPilotCbCanceled,
-          DevPBatchFirst, DevPFinalRaise
+          DevPBatchFirst, DevPFinalRaise,
+          AllowRemove,              \* TRUE: RemovePilots is part of the action set
+          DevRemovedUnwatched
 
-VARIABLES tstate, cbLog, bound, detail, pstate, pcbLog, dead,
+VARIABLES tstate, cbLog, bound, detail, pstate, pcbLog, dead, removed,
           iso, ownOK, keepOK, unkOK, pcomplete
 
-vars == <<tstate, cbLog, bound, detail, pstate, pcbLog, dead,
+vars == <<tstate, cbLog, bound, detail, pstate, pcbLog, dead, removed,
           iso, ownOK, keepOK, unkOK, pcomplete>>
 
 None == "none"
@@ -55,7 +61,7 @@ TypeOK ==
   /\ bound  \in [Tasks -> Pilots \cup {None}]
   /\ detail \in [Tasks -> Pilots \cup {None}]
   /\ pstate \in [Pilots -> AllStates(NP)]
-  /\ dead \subseteq Pilots
+  /\ dead \subseteq Pilots /\ removed \subseteq Pilots
   /\ \A t \in Tasks  : \A i \in 1 .. Len(cbLog[t])  : cbLog[t][i]  \in AllStates(NT)
   /\ \A p \in Pilots : \A i \in 1 .. Len(pcbLog[p]) : pcbLog[p][i] \in AllStates(NP)
 
@@ -66,7 +72,7 @@ Init ==
   /\ detail = [t \in Tasks |-> None]
   /\ pstate = [p \in Pilots |-> 0]
   /\ pcbLog = [p \in Pilots |-> <<>>]
-  /\ dead = {}
+  /\ dead = {} /\ removed = {}
   /\ iso = TRUE /\ ownOK = TRUE /\ keepOK = TRUE /\ unkOK = TRUE /\ pcomplete = TRUE
 
 (* ------------------------------------------------------------------------ *)
@@ -75,25 +81,26 @@ Notify(b) ==
   /\ tstate' = r.st
   /\ cbLog'  = [t \in Tasks |-> cbLog[t] \o r.cb[t]]
   /\ iso'    = Isolated(DevFinalRaise, b, tstate)
-  /\ UNCHANGED <<bound, detail, pstate, pcbLog, dead, ownOK, keepOK, unkOK, pcomplete>>
+  /\ UNCHANGED <<bound, detail, pstate, pcbLog, dead, removed, ownOK, keepOK, unkOK, pcomplete>>
 
 \* the tmgr scheduler binds t to p: full task dict with 'pilot' and the next
 \* state; Task._update copies the pilot because the state moves
 Bind(t, p) ==
   /\ bound[t] = None /\ tstate[t] < BindAt
-  /\ p \notin dead /\ ~IsFinal(NP, pstate[p])
+  /\ p \notin dead /\ p \notin removed /\ ~IsFinal(NP, pstate[p])
   /\ LET b == <<<<t, BindAt>>>>
          r == TRes(DevFinalRaise, b, tstate) IN
      /\ tstate' = r.st
      /\ cbLog'  = [u \in Tasks |-> cbLog[u] \o r.cb[u]]
      /\ iso'    = Isolated(DevFinalRaise, b, tstate)
   /\ bound' = [bound EXCEPT ![t] = p]
-  /\ UNCHANGED <<detail, pstate, pcbLog, dead, ownOK, keepOK, unkOK, pcomplete>>
+  /\ UNCHANGED <<detail, pstate, pcbLog, dead, removed, ownOK, keepOK, unkOK, pcomplete>>
 
 \* effect of the final-pilot callback for the pilots in `calls`, and what
 \* C13 says about it (reference = KillSeq without deviations)
-Deaths(calls) ==
-  LET k   == KillSeq(DevPilotCbAll, DevPilotCbCanceled, tstate, detail, bound, calls)
+\* fired: the pilots among calls for which the task manager's callback runs
+Deaths(calls, fired) ==
+  LET k   == KillSeq(DevPilotCbAll, DevPilotCbCanceled, tstate, detail, bound, fired)
       ref == KillSeq(FALSE, FALSE, tstate, detail, bound, calls) IN
   /\ tstate' = k.st
   /\ detail' = k.det
@@ -103,25 +110,35 @@ Deaths(calls) ==
 
 PilotFinal(p) ==
   /\ DirectFinal /\ p \notin dead
-  /\ Deaths(<<p>>)
-  /\ UNCHANGED <<cbLog, bound, pstate, pcbLog, iso, unkOK, pcomplete>>
+  /\ Deaths(<<p>>, <<p>>)
+  /\ UNCHANGED <<cbLog, bound, pstate, pcbLog, removed, iso, unkOK, pcomplete>>
 
 PNotify(b) ==
   LET r       == PRes(DevPBatchFirst, DevPFinalRaise, b, pstate)
       onlyUnk == \A i \in 1 .. Len(b) : b[i][1] = "pilot" => b[i][2] \notin Pilots IN
   /\ pstate' = r.st
   /\ pcbLog' = [p \in Pilots |-> pcbLog[p] \o r.cb[p]]
-  /\ Deaths(r.calls)
+  /\ Deaths(r.calls, IF DevRemovedUnwatched
+                      THEN SelectSeq(r.calls, LAMBDA q : q \notin removed) ELSE r.calls)
   /\ unkOK'  = (onlyUnk => r.st = pstate /\ ~r.raised /\ r.calls = <<>>
                            /\ \A p \in Pilots : r.cb[p] = <<>>)
   /\ pcomplete' = r.complete
-  /\ UNCHANGED <<cbLog, bound, iso>>
+  /\ UNCHANGED <<cbLog, bound, removed, iso>>
+
+\* the pilot leaves the task manager; nothing is said to the tasks bound to it
+\* (remove_pilots neither cancels nor unbinds them), so C13 keeps applying
+RemovePilots(p) ==
+  /\ AllowRemove /\ p \notin removed
+  /\ removed' = removed \cup {p}
+  /\ UNCHANGED <<tstate, cbLog, bound, detail, pstate, pcbLog, dead,
+                 iso, ownOK, keepOK, unkOK, pcomplete>>
 
 Next ==
   \/ \E b \in TBatches : Notify(b)
   \/ \E t \in Tasks, p \in Pilots : Bind(t, p)
   \/ \E p \in Pilots : PilotFinal(p)
   \/ \E b \in PBatches : PNotify(b)
+  \/ \E p \in Pilots : RemovePilots(p)
 
 Spec == Init /\ [][Next]_vars
 
